@@ -12,7 +12,8 @@ package main
 //   - what the caller does with the error the callee returns (`onErr`): "propagate" when the call is the operand
 //     of a `return`, or sits in `if err := CALL; err != nil { …; return <non-nil> }` (or a naked return of the
 //     named error result), or is `_, err := CALL` directly followed by `return err`; "swallow" when the
-//     `err != nil` branch ends in `return nil` (the method then reports success and stops).
+//     `err != nil` branch ends in `return nil` (the method then reports success and stops); "ignore" when that
+//     branch is a bare `continue` (the error is dropped and the method goes on with the next element).
 //   - the *structural* conditions that dominate the call, as literals starting with "@": "@nonnil:<origin>" /
 //     "@isnil:<origin>" for `x != nil` / `x == nil` conjuncts of enclosing `if`s (negated in the else branch),
 //     "@cond:<source text>" / "@not:cond:<…>" for any other non-flag conjunct. The test `err != nil` of the error
@@ -40,7 +41,7 @@ func init() { register("Descent", extractDescent) }
 type descentEdge struct {
 	src, dst, via string
 	guards       []string
-	onErr        string // what the caller does with the callee's error: "propagate" | "swallow"
+	onErr        string // what the caller does with the callee's error: "propagate" | "swallow" | "ignore"
 	pos          string
 }
 
@@ -349,6 +350,10 @@ func extractDescent(repo string) (string, error) {
 						return true
 					}
 					errTests[s] = true
+					if br, isBr := s.Body.List[len(s.Body.List)-1].(*ast.BranchStmt); isBr && br.Tok == token.CONTINUE && br.Label == nil && len(s.Body.List) == 1 && s.Else == nil {
+						callCtx[call] = "ignore" // `if err := CALL; err != nil { continue }`: the error is dropped, the method goes on
+						return true
+					}
 					ret, ok := s.Body.List[len(s.Body.List)-1].(*ast.ReturnStmt)
 					if !ok {
 						return true
